@@ -17,6 +17,23 @@ import (
 // phi valuation and memory.
 func (fr *Frame) loopEnv(lp *Loop, phis map[*ssa.Phi]Val, mem Mem) *SpecEnv {
 	env := fr.bodyEnv(lp.Header, mem)
+	// processed-element counters of enclosing range loops: $n<k>
+	for _, outer := range fr.loops {
+		if outer == lp || !outer.Blocks[lp.Header] {
+			continue
+		}
+		for _, in := range outer.Header.Instrs {
+			phi, ok := in.(*ssa.Phi)
+			if !ok {
+				break
+			}
+			if phi.Comment == "rangeindex" {
+				if tv, ok := fr.vals[phi].(TV); ok {
+					env.vars[fmt.Sprintf("$n%d", outer.Ord)] = mathInt(Add(tv.T, IntC(1)))
+				}
+			}
+		}
+	}
 	for _, in := range lp.Header.Instrs {
 		phi, ok := in.(*ssa.Phi)
 		if !ok {
@@ -26,6 +43,7 @@ func (fr *Frame) loopEnv(lp *Loop, phis map[*ssa.Phi]Val, mem Mem) *SpecEnv {
 		if phi.Comment == "rangeindex" {
 			if tv, ok := v.(TV); ok {
 				env.vars["$n"] = mathInt(Add(tv.T, IntC(1)))
+				env.vars[fmt.Sprintf("$n%d", lp.Ord)] = mathInt(Add(tv.T, IntC(1)))
 			}
 			continue
 		}
@@ -60,24 +78,44 @@ func (fr *Frame) bodyEnv(b *ssa.BasicBlock, mem Mem) *SpecEnv {
 		_ = i
 	}
 	env.lookup = func(name string) (Val, bool) {
-		// debug refs in dominating blocks (innermost first)
-		for d := b; d != nil; d = d.Idom() {
-			var found Val
-			for _, in := range d.Instrs {
-				if dr, ok := in.(*ssa.DebugRef); ok && !dr.IsAddr && dr.Object() != nil && dr.Object().Name() == name {
-					if _, isPhiOfLaterLoop := dr.X.(*ssa.Phi); isPhiOfLaterLoop && d == b {
-						continue
+		// latest definition of the source variable that dominates b
+		var best ssa.Value
+		bestDepth, bestIdx := -1, -2
+		consider := func(v ssa.Value, blk *ssa.BasicBlock, idx int) {
+			if blk != b && !blk.Dominates(b) {
+				return
+			}
+			if blk == b && idx >= 0 && fr.loopOf[b] != nil {
+				return // values computed in the header after the phis are not "at the header"
+			}
+			d := domDepth(blk)
+			if d > bestDepth || (d == bestDepth && idx > bestIdx) {
+				if _, ok := fr.vals[v]; ok || isConst(v) {
+					best, bestDepth, bestIdx = v, d, idx
+				}
+			}
+		}
+		for _, blk := range fr.fn.Blocks {
+			for i, in := range blk.Instrs {
+				switch x := in.(type) {
+				case *ssa.Phi:
+					if x.Comment == name {
+						consider(x, blk, -1)
 					}
-					if v, ok := fr.vals[dr.X]; ok {
-						found = v
-					} else if c, ok := dr.X.(*ssa.Const); ok {
-						found = constTerm(c)
+				case *ssa.DebugRef:
+					if !x.IsAddr && x.Object() != nil && x.Object().Name() == name {
+						if _, isVar := x.Object().(*types.Var); isVar {
+							consider(x.X, blk, i)
+						}
 					}
 				}
 			}
-			if found != nil {
-				return found, true
+		}
+		if best != nil {
+			if c, ok := best.(*ssa.Const); ok {
+				return constTerm(c), true
 			}
+			return fr.vals[best], true
 		}
 		// named cells: the name denotes the current value
 		for a, c := range fr.cells {
@@ -152,7 +190,7 @@ func (fr *Frame) enterLoop(lp *Loop, b *ssa.BasicBlock) bool {
 	for r := range roots {
 		var c *Cell
 		switch x := r.(type) {
-		case *ssa.Alloc, *ssa.MakeSlice:
+		case *ssa.Alloc, *ssa.MakeSlice, *ssa.MakeMap:
 			c = fr.cells[x]
 		case *ssa.Parameter:
 			if pv, ok := fr.vals[x].(PtrV); ok {
@@ -168,10 +206,17 @@ func (fr *Frame) enterLoop(lp *Loop, b *ssa.BasicBlock) bool {
 		if c == nil {
 			continue
 		}
+		if mv, ok := ex.mapCells[c]; ok {
+			c = mv.Cell // the variable cell aliases a locally made map
+		}
 		if _, live := fr.mem[c]; !live {
 			continue
 		}
 		fr.mem[c] = Fresh(fmt.Sprintf("%s@loop%d", c.Name, lp.Ord), c.sort())
+		if _, isMap := c.Typ.Underlying().(*types.Map); isMap && !c.Dyn && !c.Param {
+			// a map made by `make` stays non-nil
+			ex.assume(fr.cur, Not(SelField(fr.mem[c].Sort.Ctors[0], 3, fr.mem[c])))
+		}
 	}
 	hav := map[*ssa.Phi]Val{}
 	for _, p := range phis {
@@ -618,4 +663,17 @@ func ssaHash(fn *ssa.Function) string {
 		keep = append(keep, t)
 	}
 	return sha256hex(strings.Join(keep, "\n"))[:16]
+}
+
+func domDepth(b *ssa.BasicBlock) int {
+	d := 0
+	for x := b.Idom(); x != nil; x = x.Idom() {
+		d++
+	}
+	return d
+}
+
+func isConst(v ssa.Value) bool {
+	_, ok := v.(*ssa.Const)
+	return ok
 }
